@@ -1,1 +1,12 @@
-# no known findings for C18: the interner and the collector corpus hold on the current tree
+# classifiers for C18 known findings
+
+
+def c18_empty_object_singleton_stays_tracked(op, impl, model, args):
+    """the evaluator keeps one empty object per thread (the value of `{}`) in a thread-local; once a
+    program has materialised it, it stays tracked after result and state are dropped and a collection
+    has run (`jrsonnet -e '{}' --gc-print-stats --gc-collect-before-printing-stats` prints Tracked: 1).
+    Matches only the dedicated, not pre-warmed cases of the engine: exactly ONE object retained after
+    the first evaluation, nothing accumulating afterwards, nothing else wrong."""
+    return op.get("op") == "gc.observe" and op.get("tag") == "empty-object-singleton" \
+        and isinstance(impl, dict) and impl.get("retained_after_first") == 1 \
+        and impl.get("tracked_leaked") == 0 and impl.get("pool_leaked") == 0 and impl.get("panic") is False
